@@ -277,6 +277,20 @@ def run_case(ctx, case):
         ctx.count("updater_subscribed_by_hand")
     else:
         upd = ResidualGraphUpdater(d, g0, **kwargs)
+    if case["seed"] % 13 == 6 and case["builder"] != "custom":
+        # the dispatcher first serves (part of) an episode with this updater; then the updater is
+        # unsubscribed, the dispatcher reset, and the name re-bound to a new updater on a fresh
+        # graph - the old object is freed only after the new one exists
+        import gc
+        for _ in range(rng.randint(1, r.num_ops)):
+            if run.done():
+                break
+            o9, m9 = run.choose(rng, "random_ready"); run.dispatch(o9, m9)
+        d.unsubscribe(upd)
+        d.reset(); r.reset()
+        upd = ResidualGraphUpdater(d, builders()[case["builder"]](run.instance), **kwargs)
+        gc.collect()
+        ctx.count("updaters_attached_after_an_earlier_one_was_dropped")
     twin_completed = None
     if case["seed"] % 11 == 3:
         # the user's own completion observer with the feature types of the updater's helper, created
